@@ -8,7 +8,9 @@ mod c06;
 mod c09;
 mod c10;
 mod c11;
+mod c12;
 mod c14;
+mod c16;
 mod check;
 mod conc;
 mod cuts;
